@@ -35,10 +35,20 @@ import (
 //
 // Overflow: the statement covers any finite data, so a finite Mean, GeoMean
 // or Bounds must come out finite whatever the magnitudes (values up to 1e307
-// of one sign are drawn). Sum is judged only while sum|w x| <= 2^1000 and
-// Variance/StdDev only while sum x^2 <= 2^960: beyond that the exact result
-// overflows or nearly overflows float64 (+-Inf is then the correct rounding)
-// or a correct algorithm may overflow in its squares, and nothing is judged.
+// of one sign are drawn). Sum is judged only while sum|w x| <= 2^1000: beyond
+// that the exact result overflows or nearly overflows float64 (+-Inf is then
+// the correct rounding). Variance/StdDev: the exact variance depends on the
+// deviations only, and every algorithm that meets the tolerance at offset /
+// spread 1e9 works on deviations (Welford, two-pass, Chan, scaled). So beyond
+// sum x^2 = 2^960 the value is still judged while n (max-min)^2 <= 2^960 and
+// the tolerance (with ||x|| taken from the reference, see c09Tolerances) is
+// finite; its second-order term (16 n eps ||x||)^2/(n-1) - a rounded mean that
+// is a few ulps off on constant data - overflows for ||x|| beyond ~1e165, and
+// from there on (in effect: constant data) the result only has to be a
+// non-negative number (+Inf included; NaN and negative values are refuted).
+// Nothing is asked where n (max-min)^2 > 2^960: the exact variance can be
+// finite there, but a sum of squared deviations may overflow, and a
+// compensated (Kahan) or corrected two-pass summation then ends in Inf - Inf.
 //
 // Bottom of the range: data with a non-zero |x| < 1e-280 (down to 5e-324,
 // subnormals, mixed with zeros) gets an absolute floor of 8*nops quanta
@@ -80,6 +90,32 @@ const (
 // result is finite and far from overflow (false for NaN and Inf).
 func c09SumJudged(d *ref.Desc) bool { return d.SumAbs <= c09SumMax }
 func c09VarJudged(d *ref.Desc) bool { return d.SumSq <= c09SqMax }
+
+// c09VarMode: what is asked of Variance/StdDev of unweighted data of n >= 2
+// values (reference side and inputs only, see the head of the file).
+const (
+	c09VarFree  = iota // the squared deviations overflow or nearly: nothing is asked
+	c09VarSane         // a non-negative number (NaN and negative values refuted)
+	c09VarDev          // by value: the squares overflow (or nearly), the squared deviations do not
+	c09VarValue        // by value: sum x^2 <= 2^960
+)
+
+func c09VarMode(d *ref.Desc, t c09Tol) int {
+	switch {
+	case c09VarJudged(d):
+		return c09VarValue
+	case math.IsNaN(d.Var) || math.IsInf(d.Var, 0):
+		return c09VarFree
+	}
+	spread := d.Max - d.Min
+	if !(float64(d.N)*spread*spread <= c09SqMax) {
+		return c09VarFree
+	}
+	if !math.IsInf(t.vr, 0) && !math.IsNaN(t.vr) {
+		return c09VarDev
+	}
+	return c09VarSane
+}
 
 type c09Op struct {
 	Op  string `json:"op"` // sort | copy | query | mutx | mutw | flag
@@ -274,7 +310,17 @@ func c09Tolerances(d *ref.Desc, nops int, q, qv float64) c09Tol {
 	}
 	if !d.Weighted && d.N >= 2 {
 		n1 := float64(d.N - 1)
-		t.vr = k*math.Sqrt(d.SumSq)*math.Sqrt(d.SS)/n1 + k*k*d.SumSq/n1 + 8*float64(nops)*qv
+		if c09VarJudged(d) {
+			t.vr = k*math.Sqrt(d.SumSq)*math.Sqrt(d.SS)/n1 + k*k*d.SumSq/n1 + 8*float64(nops)*qv
+		} else {
+			// sum x^2 overflows float64 or nearly: the same two terms from
+			// ||x|| (rounded once by the reference); +Inf where they overflow
+			a := k * d.Norm
+			t.vr = a*math.Sqrt(d.SS)/n1 + a*a/n1
+			if math.IsNaN(t.vr) { // Inf * 0
+				t.vr = math.Inf(1)
+			}
+		}
 		lo := math.Sqrt(math.Max(0, d.Var-t.vr))
 		hi := math.Sqrt(d.Var + t.vr)
 		t.sd = math.Max(d.SD-lo, hi-d.SD) + 4*c09Eps*d.SD
@@ -464,12 +510,16 @@ func (j *c09Ctx) query(s stats.Sample, d *ref.Desc, label string) (r c09Res) {
 	if !meanOK && !in.wide {
 		j.w.Note("mean-not-judged:|x|>1e307-mixed-signs-or-weights")
 	}
+	if weighted && d.W > 0 && in.amax > 0 && in.amax <= 1e-290 && in.wmax >= 1e13 && meanOK {
+		j.w.Hit("tiny-values-at-wide-weights-mean-judged")
+		j.w.HitIf(in.wide, "tiny-values-at-wide-weights-mean-judged:weight-ratio>64")
+	}
 	r.meanOK, r.geoOK = meanOK, geoOK
 
 	if !j.call("Sample.Sum", label, func() { r.sum = s.Sum() }) {
 		return
 	}
-	sumOK, varOK := c09SumJudged(d), c09VarJudged(d)
+	sumOK, varMode := c09SumJudged(d), c09VarMode(d, t)
 	if sumOK {
 		j.value("Sample.Sum", label, r.sum, d.Sum, t.sum)
 	} else {
@@ -517,15 +567,21 @@ func (j *c09Ctx) query(s stats.Sample, d *ref.Desc, label string) (r c09Res) {
 		if d.N < 2 {
 			j.small("Sample.Variance", label, r.vr)
 			j.small("Sample.StdDev", label, r.sd)
-		} else if varOK {
+		} else if varMode >= c09VarDev {
+			j.w.HitIf(varMode == c09VarDev, "variance-judged-on-deviations:squares-overflow-or-nearly")
+			j.w.HitIf(varMode == c09VarDev && d.SS > 0, "variance-judged-on-deviations:not-constant")
 			j.value("Sample.Variance", label, r.vr, d.Var, t.vr)
 			if sdOK {
 				j.value("Sample.StdDev", label, r.sd, d.SD, t.sd)
 			} else {
 				j.sane("Sample.StdDev", label, r.sd)
 			}
+		} else if varMode == c09VarSane {
+			j.w.Hit("variance-sane-only:squares-overflow-exact-variance-finite")
+			j.sane("Sample.Variance", label, r.vr)
+			j.sane("Sample.StdDev", label, r.sd)
 		} else {
-			j.w.Note("variance-not-judged:squares-overflow-or-nearly")
+			j.w.Note("variance-not-judged:squared-deviations-overflow-or-nearly")
 		}
 
 		// slice API
@@ -555,13 +611,16 @@ func (j *c09Ctx) query(s stats.Sample, d *ref.Desc, label string) (r c09Res) {
 		if d.N < 2 {
 			j.small("stats.Variance", label, v)
 			j.small("stats.StdDev", label, sd)
-		} else if varOK {
+		} else if varMode >= c09VarDev {
 			j.value("stats.Variance", label, v, d.Var, t.vr)
 			if sdOK {
 				j.value("stats.StdDev", label, sd, d.SD, t.sd)
 			} else {
 				j.sane("stats.StdDev", label, sd)
 			}
+		} else if varMode == c09VarSane {
+			j.sane("stats.Variance", label, v)
+			j.sane("stats.StdDev", label, sd)
 		}
 		var lo, hi float64
 		if !j.call("stats.Bounds", label, func() { lo, hi = stats.Bounds(xs) }) {
@@ -700,6 +759,10 @@ func c09JudgeSample(w *mon.W, c c09Case) {
 		w.HitIf(in.wide && in.wmax <= 1e6*in.wmin && d.IntWhole, "wide-integer-weights<=1e6")
 		w.HitIf(!in.wide && (in.wmax >= 0x1p35 || in.wmax <= 0x1p-35), "weights-scaled-by-2^+-40")
 		w.HitIf(in.lightBehind, "a-weight-below-half-ulp-of-the-weight-before-it")
+		// every value is tiny and the weights are heavy: (x-m)/wsum underflows
+		// although (x-m) w/wsum does not
+		w.HitIf(in.amax > 0 && in.amax <= 1e-290 && in.wmax >= 1e13, "tiny-values-at-wide-weights")
+		w.HitIf(in.amax > 0 && in.amax < 0x1p-1022 && in.wmax >= 0x1p53, "tiny-values-at-wide-weights:subnormals-at-weights>=2^53")
 		// the smallest or the largest value is carried only by weights at
 		// most 1e-12 of the largest weight
 		minHeavy, maxHeavy := false, false
@@ -1064,32 +1127,90 @@ func c09JudgeLinspace(w *mon.W, c c09Case) {
 	w.HitIf(lo > hi, "linspace-descending")
 	w.HitIf(lo == hi, "linspace-lo=hi")
 	w.HitIf(lo != hi && math.Abs(hi-lo) <= 1e-6*scale, "linspace-offset")
+	// bottom and top of the range (inputs only): a spacing (hi-lo)/(num-1)
+	// below the smallest normal number is a whole number of quanta only after
+	// rounding; |lo| or |hi| near MaxFloat64
+	w.HitIf(num >= 3 && lo != hi && math.Abs(hi/2-lo/2) < 0x1p-1023*float64(num-1), "linspace-subnormal-spacing")
+	w.HitIf(num >= 3 && lo != hi && scale < 0x1p-1022, "linspace-all-subnormal")
+	w.HitIf(num >= 2 && lo != hi && scale >= 1e300, "linspace-huge")
+	w.HitIf(num >= 1, "linspace-called-twice")
 	w.Distinct(mon.NewHasher().S("linspace").F(lo).F(hi).I(num).Sum())
-	var res []float64
-	if !j.call("vec.Linspace", "linspace", func() { res = vec.Linspace(lo, hi, num) }) {
+	// two calls with equal arguments; the caller overwrites the first result
+	// (all of it, and its spare capacity) before the second call is made
+	var first, res []float64
+	if !j.call("vec.Linspace", "linspace", func() { first = vec.Linspace(lo, hi, num) }) {
 		return
 	}
-	if len(res) != num {
-		j.bad("linspace-len", fmt.Sprintf("Linspace(%v,%v,%d) has %d values", lo, hi, num, len(res)))
+	got1 := c09Clone(first)
+	c09Scribble(first)
+	if !j.call("vec.Linspace", "linspace, second call", func() { res = vec.Linspace(lo, hi, num) }) {
 		return
 	}
-	if num == 1 {
-		if res[0] != lo {
-			j.bad("linspace-one", fmt.Sprintf("Linspace(%v,%v,1) = %v, want [lo]", lo, hi, res))
-		}
+	if c09Overlap(first, res) {
+		j.bad("linspace-storage", fmt.Sprintf("two calls of Linspace(%v,%v,%d) returned slices that share storage", lo, hi, num))
 		return
 	}
-	tol := 16 * c09Eps * scale
-	for i := 0; i < num; i++ {
-		want := c09LinExact(lo, hi, i, num)
-		if !w.Err("vec.Linspace", math.Abs(res[i]-want), tol) {
-			j.bad("linspace-value", fmt.Sprintf("Linspace(%v,%v,%d)[%d] = %.17g, exact %.17g (tol %.3g)", lo, hi, num, i, res[i], want, tol))
+	// 16 eps of the scale, plus 4 quanta: the exact value is rounded to a
+	// whole number of quanta, and so is each subnormal intermediate result
+	tol := 16*c09Eps*scale + 4*c09Quantum
+	var want []float64
+	for k, r := range [][]float64{got1, res} {
+		call := []string{"first call", "second call with the same arguments, after the caller overwrote the first result"}[k]
+		if len(r) != num {
+			j.bad("linspace-len", fmt.Sprintf("Linspace(%v,%v,%d) has %d values (%s)", lo, hi, num, len(r), call))
 			return
 		}
+		if num == 1 {
+			if r[0] != lo {
+				j.bad("linspace-one", fmt.Sprintf("Linspace(%v,%v,1) = %v, want [lo] (%s)", lo, hi, r, call))
+				return
+			}
+			continue
+		}
+		if want == nil {
+			want = make([]float64, num)
+			for i := range want {
+				want[i] = c09LinExact(lo, hi, i, num)
+			}
+		}
+		for i := 0; i < num; i++ {
+			if math.IsInf(r[i], 0) && (r[i] > 0) == (want[i] > 0) && math.Abs(want[i])/2+tol/2 >= math.MaxFloat64/2 {
+				// the exact value plus the tolerance lies beyond the largest
+				// finite number: the infinity is its correct rounding
+				w.Note("overflow-accepted:exact-value-plus-tolerance-exceeds-MaxFloat64")
+				continue
+			}
+			if !w.Err("vec.Linspace", math.Abs(r[i]-want[i]), tol) {
+				j.bad("linspace-value", fmt.Sprintf("Linspace(%v,%v,%d)[%d] = %.17g, exact %.17g (tol %.3g; %s)", lo, hi, num, i, r[i], want[i], tol, call))
+				return
+			}
+		}
+	}
+	if !c09Scribbled(first) {
+		j.bad("linspace-storage", fmt.Sprintf("the second call of Linspace(%v,%v,%d) wrote into the result of the first", lo, hi, num))
+		return
 	}
 	if w.WantSample() && num >= 3 && num <= 5 {
 		w.Sample(map[string]any{"kind": "linspace", "lo": lo, "hi": hi, "num": num, "got": res})
 	}
+}
+
+// c09Scribble overwrites a result the caller owns: every element and the
+// spare capacity. c09Scribbled says whether all of it is still there.
+func c09Scribble(xs []float64) {
+	xs = xs[:cap(xs)]
+	for i := range xs {
+		xs[i] = c09Canary
+	}
+}
+
+func c09Scribbled(xs []float64) bool {
+	for _, x := range xs[:cap(xs)] {
+		if x != c09Canary {
+			return false
+		}
+	}
+	return true
 }
 
 func c09JudgeLogspace(w *mon.W, c c09Case) {
@@ -1113,14 +1234,28 @@ func c09JudgeLogspace(w *mon.W, c c09Case) {
 	// many values and a tight tolerance: an error that grows with the index
 	// (a progression built by repeated multiplication) shows here
 	w.HitIf(num >= 1000 && lb*scale <= 8 && base != 1 && lo != hi, "logspace-num>=1000-small-exponents")
+	w.HitIf(num >= 1, "logspace-called-twice")
 	w.Distinct(mon.NewHasher().S("logspace").F(lo).F(hi).I(num).F(base).Sum())
-	var res []float64
-	if !j.call("vec.Logspace", "logspace", func() { res = vec.Logspace(lo, hi, num, base) }) {
+	// two calls with equal arguments; the caller overwrites the first result
+	// (all of it, and its spare capacity) before the second call is made
+	var first, second []float64
+	if !j.call("vec.Logspace", "logspace", func() { first = vec.Logspace(lo, hi, num, base) }) {
 		return
 	}
-	if len(res) != num {
-		j.bad("logspace-len", fmt.Sprintf("Logspace(%v,%v,%d,%v) has %d values", lo, hi, num, base, len(res)))
+	got1 := c09Clone(first)
+	c09Scribble(first)
+	if !j.call("vec.Logspace", "logspace, second call", func() { second = vec.Logspace(lo, hi, num, base) }) {
 		return
+	}
+	if c09Overlap(first, second) {
+		j.bad("logspace-storage", fmt.Sprintf("two calls of Logspace(%v,%v,%d,%v) returned slices that share storage", lo, hi, num, base))
+		return
+	}
+	for k, r := range [][]float64{got1, second} {
+		if len(r) != num {
+			j.bad("logspace-len", fmt.Sprintf("Logspace(%v,%v,%d,%v) has %d values (call %d)", lo, hi, num, base, len(r), k+1))
+			return
+		}
 	}
 	// every element against base**(lo + i (hi-lo)/(num-1)) with one relative
 	// tolerance for the whole vector: it does not grow with the index
@@ -1140,10 +1275,16 @@ func c09JudgeLogspace(w *mon.W, c c09Case) {
 		if num >= 2 && (i == 0 || i == num-1) {
 			oracle = "vec.Logspace:end-point"
 		}
-		if !w.Err(oracle, math.Abs(res[i]-want), rel*want) {
-			j.bad("logspace-value", fmt.Sprintf("Logspace(%v,%v,%d,%v)[%d] = %.17g, base**Linspace = %.17g (|rel err| %.3g > rel tol %.3g, the same for every index)", lo, hi, num, base, i, res[i], want, math.Abs(res[i]-want)/want, rel))
-			return
+		for k, r := range [][]float64{got1, second} {
+			if !w.Err(oracle, math.Abs(r[i]-want), rel*want) {
+				call := []string{"first call", "second call with the same arguments, after the caller overwrote the first result"}[k]
+				j.bad("logspace-value", fmt.Sprintf("Logspace(%v,%v,%d,%v)[%d] = %.17g, base**Linspace = %.17g (|rel err| %.3g > rel tol %.3g, the same for every index; %s)", lo, hi, num, base, i, r[i], want, math.Abs(r[i]-want)/want, rel, call))
+				return
+			}
 		}
+	}
+	if !c09Scribbled(first) {
+		j.bad("logspace-storage", fmt.Sprintf("the second call of Logspace(%v,%v,%d,%v) wrote into the result of the first", lo, hi, num, base))
 	}
 }
 
@@ -1591,6 +1732,198 @@ func c09GenHuge(rng *mon.Rand, i int) c09Case {
 		c.HasW = true
 		c.Ws = mon.Fs(c09Weights(rng, wmode-4, xs))
 	}
+	return c
+}
+
+// c09GenHugeOffset: unweighted data of one sign whose squares overflow
+// float64 (or nearly: |x| >= 1e145): exactly constant data (up to
+// MaxFloat64), a huge offset (mostly 1e145..1e160) with a spread of at most
+// 1e142 (the squared deviations are far from overflow), and larger spreads
+// (nothing is asked of the variance). The first value is as large as the
+// others in every order.
+func c09GenHugeOffset(rng *mon.Rand, i int) c09Case {
+	n := c09N(rng)
+	switch {
+	case i%10 == 3:
+		n = rng.Range(2, 4)
+	case n > 60 && i%4 != 0:
+		n = rng.Range(2, 60)
+	}
+	e := rng.Uniform(145, 175)
+	if i%7 == 0 {
+		e = rng.Uniform(175, 308)
+	}
+	s := rng.Sign() * math.Pow(10, e)
+	if i%31 == 5 {
+		s = math.Copysign(math.MaxFloat64, s)
+	}
+	if math.IsInf(s, 0) || math.Abs(s) > math.MaxFloat64 {
+		s = math.Copysign(math.MaxFloat64, s)
+	}
+	spread := 0.0
+	switch (i / 2) % 4 {
+	case 0: // exactly constant
+	case 1, 2: // the squared deviations stay far from overflow
+		if i%7 != 0 {
+			e = rng.Uniform(145, 160)
+			s = math.Copysign(math.Pow(10, e), s)
+		}
+		if lo := e - 15.5; lo < 142 {
+			spread = math.Pow(10, rng.Uniform(lo, 142))
+		}
+	default: // the squared deviations are large or overflow (nothing is asked of the variance)
+		spread = math.Abs(s) * rng.Pick(1e-15, 1e-12, 1e-9, 1e-6)
+		if rng.Bool() {
+			spread = math.Pow(10, rng.Uniform(math.Max(e-15.5, 143), 153))
+		}
+	}
+	if e > 180 || math.Abs(s) == math.MaxFloat64 { // a spread of a few ulps would make the variance overflow
+		spread = 0
+	}
+	xs := make([]float64, n)
+	for k := range xs {
+		xs[k] = s + spread*rng.Norm()
+	}
+	switch rng.Intn(6) {
+	case 0:
+		sort.Float64s(xs)
+	case 1:
+		sort.Sort(sort.Reverse(sort.Float64Slice(xs)))
+	}
+	return c09Case{Kind: "sample", Xs: mon.Fs(xs), Seed: rng.Uint64(), NPerm: 3}
+}
+
+// c09GenTinyWide: every value is tiny (1e-320..1e-290, subnormals, a narrow
+// cluster at 1e-323..1e-308) and the weights are whole numbers of 1e13..2^60:
+// all equal, spread over that range, or a few light points (1..3) among them.
+// The wide vectors are also queried heaviest first (c09JudgeSample).
+func c09GenTinyWide(rng *mon.Rand, i int) c09Case {
+	n := c09N(rng)
+	switch {
+	case i%8 == 1:
+		n = rng.Range(1, 4)
+	case n > 60:
+		n = rng.Range(2, 60)
+	}
+	var xs []float64
+	switch i % 4 {
+	case 0:
+		xs = c09TinyValues(rng, 0, n) // subnormals
+	case 1:
+		xs = c09TinyValues(rng, 3, n) // narrow cluster
+	case 2:
+		xs = make([]float64, n)
+		for k := range xs {
+			xs[k] = math.Pow(10, rng.Uniform(-320, -290))
+		}
+	default:
+		xs = make([]float64, n)
+		for k := range xs {
+			xs[k] = rng.Sign() * math.Pow(10, rng.Uniform(-320, -290))
+		}
+	}
+	for k, x := range xs { // never above 1e-290 whatever the rounding of Pow
+		if math.Abs(x) > 1e-290 {
+			xs[k] = math.Copysign(1e-290, x)
+		}
+	}
+	ws := make([]float64, n)
+	switch (i / 4) % 4 {
+	case 0: // all equal
+		h := rng.Pick(1e13, 1e15, 1e17, 0x1p53, 0x1p60)
+		for k := range ws {
+			ws[k] = h
+		}
+	case 1: // whole numbers over the whole range
+		for k := range ws {
+			ws[k] = math.Floor(rng.LogUniform(1e13, 0x1p60))
+		}
+	case 2: // heavy with a few light points and zeros, heaviest first
+		h := rng.Pick(1e13, 1e16, 1e17, 0x1p53, 0x1p60)
+		for k := range ws {
+			ws[k] = h
+			switch rng.Intn(6) {
+			case 0:
+				ws[k] = float64(rng.Range(1, 3))
+			case 1:
+				ws[k] = 0
+			}
+		}
+		if n > 0 {
+			ws[rng.Intn(n)] = h
+		}
+		idx := make([]int, n)
+		for k := range idx {
+			idx[k] = k
+		}
+		sort.SliceStable(idx, func(a, b int) bool { return ws[idx[a]] > ws[idx[b]] })
+		xs, ws = c09Order(xs, ws, idx)
+	default: // powers of ten 1e13..1e18
+		for k := range ws {
+			ws[k] = math.Pow(10, float64(rng.Range(13, 18)))
+		}
+	}
+	return c09Case{Kind: "sample", Xs: mon.Fs(xs), Ws: mon.Fs(ws), HasW: true, Seed: rng.Uint64(), NPerm: 3}
+}
+
+// c09GenLinspaceExtreme: Linspace at the two ends of the range.
+//
+//	0  lo = 0 or a few quanta, hi a whole number of quanta (up to 2^20)
+//	1  lo a normal number at 2^-1022..1e-300, hi a few quanta (1..1e4) away
+//	2  lo and hi subnormal, any signs
+//	3  one end 0, the other at 1e-323..1e-305
+//	4  huge: lo at 1e300..MaxFloat64, hi within 1e-12..1e-3 of it (relative)
+//	5  huge: two values of 1e300..MaxFloat64 of one sign, or of opposite
+//	   signs and below MaxFloat64/2, few points
+//
+// In the huge variants (num-1)|hi-lo| stays below 1e308: the product
+// i (hi-lo) of the defining expression is finite.
+func c09GenLinspaceExtreme(rng *mon.Rand, i int) c09Case {
+	c := c09Case{Kind: "linspace", Num: rng.PickI(64, 200, 257, 501, 1001)}
+	if i%3 == 0 {
+		c.Num = rng.Range(3, 60)
+	}
+	q := c09Quantum
+	var lo, hi float64
+	switch i % 6 {
+	case 0:
+		lo = float64(rng.PickI(0, 0, 1, 3)) * q
+		hi = math.Floor(rng.LogUniform(1, 0x1p20)) * q
+	case 1:
+		lo = rng.Pick(0x1p-1022, 0x1p-1021, math.Pow(10, rng.Uniform(-307.6, -300)))
+		hi = lo + rng.Sign()*math.Floor(rng.LogUniform(1, 1e4))*q
+	case 2:
+		lo = rng.Sign() * math.Floor(rng.LogUniform(1, 0x1p52)) * q
+		hi = rng.Sign() * math.Floor(rng.LogUniform(1, 0x1p52)) * q
+	case 3:
+		hi = rng.Sign() * math.Pow(10, rng.Uniform(-323, -305))
+	case 4:
+		lo = rng.Sign() * rng.Pick(math.MaxFloat64, 1e308, math.Pow(10, rng.Uniform(300, 308)))
+		hi = lo * (1 - math.Pow(10, rng.Uniform(-12, -3)))
+		if math.Abs(lo) < 1e307 && rng.Bool() {
+			hi = lo * (1 + math.Pow(10, rng.Uniform(-12, -3)))
+		}
+	default:
+		lo = math.Pow(10, rng.Uniform(300, 308))
+		hi = rng.Pick(math.MaxFloat64, math.Pow(10, rng.Uniform(300, 308)))
+		if rng.Intn(3) == 0 {
+			lo, hi = lo/2.5, -hi/2.5
+		}
+		if rng.Bool() {
+			lo, hi = -lo, -hi
+		}
+		c.Num = rng.Range(2, 12)
+	}
+	if rng.Bool() {
+		lo, hi = hi, lo
+	}
+	if math.Max(math.Abs(lo), math.Abs(hi)) >= 1e300 {
+		span := math.Abs(hi - lo)
+		for c.Num > 2 && float64(c.Num-1)*span > 1e308 {
+			c.Num = 2 + (c.Num-2)/2
+		}
+	}
+	c.Lo, c.Hi = mon.F(lo), mon.F(hi)
 	return c
 }
 
@@ -2161,7 +2494,7 @@ func c09SelfTest() error {
 }
 
 func c09Run(r *mon.Run) {
-	r.Rule("samples: n=0..200 values of 12 shapes (offset/spread up to 1e9, ties, constant, outlier, cancelling pairs, 120 decades of magnitude, integers with signed zeros) and of 5 huge shapes (one sign, |x| up to 1e307: sums that overflow, huge mixed with small, huge offset with tiny spread; |x| 1e290..1e298; any sign 1e60..1e140), unweighted / integer weights 0..5 (also 0..12, all-zero, all-one, single) / real weights in [0.25,8]; every sample is queried (Sum, Weight, Mean, Bounds, GeoMean, Variance, StdDev on the Sample; Mean, GeoMean, Variance, StdDev, Bounds, vec.Sum on the slice) in 8 orders: as given, ascending, ascending with Sorted=true, descending, 4 random permutations; integer-weighted samples also as the sample with each value repeated weight times. histories: up to 12 operations of {Sort, Copy, query, write x, write w, set Sorted on ascending data} over the objects created so far, against the pair-multiset model. vec: Sum, Linspace (num 0..1000, offsets, descending), Logspace (num 0..24 and 200, 257, 1000; every element against base**(exact Linspace) with one relative tolerance for the whole vector), Map/Vectorize (8 functions; 0..200 values and 1000..4099; Map and each Vectorize closure applied 1-3 times to inputs of equal and unequal length, then every result re-checked bit for bit and all results and inputs checked for shared storage; f must have been called with every element), Concat (nil, empty, aliased arguments, canaries in spare capacity). wide weights: mixes of 1 and 10^k (k=1..17), whole-number weights up to 2^53 and up to 1e6, reals over 1e-8..1e8, ordinary vectors scaled as a whole by 2^+-20 / 2^+-40, extreme values at weights <= 1e-12 of the largest, heavy points (1e16..2^60) first with light points of 1e6..1e30 times their magnitude; these samples are also queried heaviest first. tiny: subnormals, 5e-324, 1e-320..1e-250, zeros mixed in, 1e-170..1e-150 (squares at the underflow threshold), tiny next to ordinary values; unweighted and with the ordinary weights. extreme: +-MaxFloat64 and +-5e-324 exactly, also as the only values of non-zero weight (weights 0/1, one sign). histories-extreme: the caller's writes store +-MaxFloat64, +-5e-324, subnormals, zeros and weights 3e12..2^53. A case is non-trivial if it hits any class; distinct by hash of the whole case.")
+	r.Rule("samples: n=0..200 values of 12 shapes (offset/spread up to 1e9, ties, constant, outlier, cancelling pairs, 120 decades of magnitude, integers with signed zeros) and of 5 huge shapes (one sign, |x| up to 1e307: sums that overflow, huge mixed with small, huge offset with tiny spread; |x| 1e290..1e298; any sign 1e60..1e140), unweighted / integer weights 0..5 (also 0..12, all-zero, all-one, single) / real weights in [0.25,8]; every sample is queried (Sum, Weight, Mean, Bounds, GeoMean, Variance, StdDev on the Sample; Mean, GeoMean, Variance, StdDev, Bounds, vec.Sum on the slice) in 8 orders: as given, ascending, ascending with Sorted=true, descending, 4 random permutations; integer-weighted samples also as the sample with each value repeated weight times. histories: up to 12 operations of {Sort, Copy, query, write x, write w, set Sorted on ascending data} over the objects created so far, against the pair-multiset model. vec: Sum, Linspace (num 0..1000, offsets, descending), Logspace (num 0..24 and 200, 257, 1000; every element against base**(exact Linspace) with one relative tolerance for the whole vector), Map/Vectorize (8 functions; 0..200 values and 1000..4099; Map and each Vectorize closure applied 1-3 times to inputs of equal and unequal length, then every result re-checked bit for bit and all results and inputs checked for shared storage; f must have been called with every element), Concat (nil, empty, aliased arguments, canaries in spare capacity). wide weights: mixes of 1 and 10^k (k=1..17), whole-number weights up to 2^53 and up to 1e6, reals over 1e-8..1e8, ordinary vectors scaled as a whole by 2^+-20 / 2^+-40, extreme values at weights <= 1e-12 of the largest, heavy points (1e16..2^60) first with light points of 1e6..1e30 times their magnitude; these samples are also queried heaviest first. tiny: subnormals, 5e-324, 1e-320..1e-250, zeros mixed in, 1e-170..1e-150 (squares at the underflow threshold), tiny next to ordinary values; unweighted and with the ordinary weights. extreme: +-MaxFloat64 and +-5e-324 exactly, also as the only values of non-zero weight (weights 0/1, one sign). histories-extreme: the caller's writes store +-MaxFloat64, +-5e-324, subnormals, zeros and weights 3e12..2^53. huge-offset: unweighted one-signed data at 1e145..MaxFloat64, constant or with a spread of at most 1e142 (sum x^2 overflows, the squared deviations do not), a quarter with larger spreads. tiny-wide-weights: every value in 1e-320..1e-290 or subnormal, whole-number weights 1e13..2^60 (equal, spread, with light points and zeros). linspace-extreme: lo/hi subnormal, a few quanta apart at 2^-1022..1e-300, and at 1e300..MaxFloat64 with (num-1)|hi-lo| <= 1e308. Linspace and Logspace are called twice per case with equal arguments, the first result (and its spare capacity) overwritten in between: both results are judged by value and must not share storage. A case is non-trivial if it hits any class; distinct by hash of the whole case.")
 	r.Assume("reference: 384-bit big.Float arithmetic on the exact binary values, cross-checked at start-up against big.Rat, text-book values and gonum/stat",
 		"tolerances: 16*nops*eps*kappa*scale from the conditioning of the problem (see the head of props/c09.go); Bounds, Sort, Copy, Map, Concat exact",
 		"weighted Variance/StdDev (documented as unimplemented) and weighted GeoMean of samples with a non-positive value of non-zero weight are not called; zero-weight values are not part of the sample (the statement's repeated-sample law), whatever their sign",
@@ -2170,7 +2503,9 @@ func c09Run(r *mon.Run) {
 		"wide weights (largest/smallest non-zero weight > 64, up to 2^60): Sum, Weight, Bounds are judged in every order; Mean and GeoMean are judged with the same conditioning-derived tolerance only in the orders in which an a-priori rounding bound of the incremental recurrence (c09OrderBound, inputs only) is within half the tolerance - heaviest-first orders always are; in the other orders (a light point of large magnitude before a much heavier one) the calls are made but the value is not judged (DESIGN section 6: the incremental weighted mean loses digits there)",
 		"tiny data (a non-zero |x| < 1e-280; < 1e-140 for Variance): absolute floor of 8 quanta (5e-324) per operand on Sum, Mean, Variance, 8 quanta on GeoMean; StdDev is only required to be a non-negative number where the exact variance is below 2^-1022; GeoMean of data holding a subnormal value, or beyond 1e307, is only required to be a non-negative number (math.Log / math.Exp of the go1.23 amd64 toolchain are wrong on subnormals / overflow above 709.4); a NaN where the exact value is finite is always a violation",
 		"+-MaxFloat64: Mean is judged while max|x|*max(1,max w) <= 1.25e308, beyond that only for one-signed data with weights in {0,1} (x-m and w*x cannot overflow); +Inf is accepted where exact value + tolerance > MaxFloat64; Bounds and Weight are always judged, bit-exactly / to rounding",
-		"overflow: Sum is judged only while sum|w x| <= 2^1000 and Variance/StdDev only while sum x^2 <= 2^960 (the exact value is finite and far from overflow); otherwise the calls are made (no panic, Sorted-flag law) but their values are not judged; Mean, GeoMean and Bounds of finite data are always judged",
+		"overflow: Sum is judged only while sum|w x| <= 2^1000 (the exact value is finite and far from overflow); otherwise the call is made (no panic, Sorted-flag law) but its value is not judged; Mean, GeoMean and Bounds of finite data are always judged",
+		"Variance/StdDev beyond sum x^2 = 2^960: judged by value (same two-term tolerance, ||x|| from the reference) while n (max-min)^2 <= 2^960 and the tolerance is finite (||x|| up to ~1e165); where that tolerance overflows (in effect constant data beyond ~1e165) required to be a non-negative number (+Inf accepted: the squared rounding error of a mean may overflow in a correct algorithm; NaN and negative values refuted); nothing is asked where n (max-min)^2 > 2^960 (a sum of squared deviations may overflow, and compensated or corrected summation then yields Inf - Inf, although the exact variance can still be finite)",
+		"Linspace at the bottom of the range: tolerance 16 eps max(|lo|,|hi|) + 4 quanta (5e-324); at the top only arguments with (num-1)|hi-lo| <= 1e308 are drawn (the defining expression lo + i (hi-lo)/(num-1) is finite term by term)",
 		"Map/Vectorize: every result element equals f(x[i]) bit for bit; neither the number of calls of f per element (>= 1 over the life of a closure), their order nor their goroutine is constrained; results are fresh storage per call")
 	r.Gate("geomean-nonpositive-values-only-at-zero-weight", "n=0", "n=1", "offset/spread>=1e8", "zero-weight-prefix", "zero-weight-suffix", "zero-weight-first", "all-zero-weights",
 		"weighted-sort-ties", "ties", "constant-data", "int-weights", "real-weights", "unweighted",
@@ -2179,7 +2514,11 @@ func c09Run(r *mon.Run) {
 		"linspace-num=0", "linspace-num=1", "linspace-num=2", "linspace-offset", "logspace-num>=2",
 		"concat-no-args", "concat-first-has-spare-capacity", "map", "vsum",
 		"huge-same-sign", "huge-plain-sum-overflows", "huge-weighted-sum-overflows", "huge-and-small-mixed", "huge-offset-small-spread", "huge-sum-judged", "large-variance-judged",
-		"sum-not-judged:exact-value-overflows-or-nearly", "variance-not-judged:squares-overflow-or-nearly",
+		"sum-not-judged:exact-value-overflows-or-nearly", "variance-not-judged:squared-deviations-overflow-or-nearly",
+		"variance-judged-on-deviations:squares-overflow-or-nearly", "variance-judged-on-deviations:not-constant", "variance-sane-only:squares-overflow-exact-variance-finite",
+		"linspace-subnormal-spacing", "linspace-all-subnormal", "linspace-huge", "linspace-called-twice", "logspace-called-twice", "vec-called-twice-on-one-goroutine",
+		"tiny-values-at-wide-weights", "tiny-values-at-wide-weights:subnormals-at-weights>=2^53",
+		"tiny-values-at-wide-weights-mean-judged", "tiny-values-at-wide-weights-mean-judged:weight-ratio>64",
 		"map-n>=128", "map-n>=128-ragged", "map-n>=1000", "map-repeat-equal-length", "map-repeat-unequal-length",
 		"logspace-num>=200", "logspace-num>=1000", "logspace-num>=1000-small-exponents",
 		"wide-weights", "weight-ratio>=2^53", "wide-integer-weights<=1e6", "int-weights>64", "weights-scaled-by-2^+-40",
@@ -2256,6 +2595,12 @@ func c09Run(r *mon.Run) {
 	r.Parallel("histories-extreme", r.Pick(500, 5000), func(w *mon.W, i int) {
 		c09JudgeHistory(w, c09GenHistoryExtreme(w.Rng, i))
 	})
+	r.Parallel("samples-huge-offset", r.Pick(250, 2500), func(w *mon.W, i int) {
+		c09JudgeSample(w, c09GenHugeOffset(w.Rng, i))
+	})
+	r.Parallel("samples-tiny-wide-weights", r.Pick(300, 3000), func(w *mon.W, i int) {
+		c09JudgeSample(w, c09GenTinyWide(w.Rng, i))
+	})
 
 	r.Parallel("vsum", r.Pick(2000, 20000), func(w *mon.W, i int) {
 		rng := w.Rng
@@ -2295,6 +2640,21 @@ func c09Run(r *mon.Run) {
 			}
 		}
 		c09JudgeLinspace(w, c)
+	})
+	r.Parallel("linspace-extreme", r.Pick(300, 3000), func(w *mon.W, i int) {
+		c09JudgeLinspace(w, c09GenLinspaceExtreme(w.Rng, i))
+	})
+	// one goroutine: nothing else calls the library between the two calls of
+	// a case
+	r.Serial("linspace-logspace-repeat", r.Pick(60, 600), func(w *mon.W, i int) {
+		rng := w.Rng
+		c := c09Case{Kind: "logspace", Num: rng.Range(1, 12), Base: mon.F(rng.Pick(2, 10, math.E, 0.5))}
+		c.Lo, c.Hi = mon.F(float64(rng.Range(-6, 6))), mon.F(float64(rng.Range(-6, 6)))
+		if i%2 == 1 {
+			c.Kind = "linspace"
+		}
+		w.Hit("vec-called-twice-on-one-goroutine")
+		c09Judge(w, c)
 	})
 	r.Parallel("logspace", r.Pick(1000, 10000), func(w *mon.W, i int) {
 		rng := w.Rng
